@@ -156,8 +156,11 @@ theorem at_most_two_per_packet_partial (cfg : Cfg) (hc : CfgOk cfg) (s : St) (hs
   | some q =>
     rw [hq] at h
     have hsz := plOf_size p hp q hq
+    change consumePayload cfg s q.us q.bytes q.off = _ at h
     rw [consumePayload_eq cfg hc s q.us q.bytes q.off hsz.1 hs] at h
-    cases h
+    have h' := R.ok.inj h
+    have e : ds = (consumeSpec cfg s q.us q.bytes q.off).2 := by rw [h']
+    rw [e]
     exact consumeSpec_deliveries_weak cfg s q.us q.bytes q.off hs
 
 /-- … because `PsiInv` alone admits (unreachable) states whose buffered header disagrees with the
@@ -168,12 +171,18 @@ theorem length_equation_needs_full :
       ∃ s' d, Psi.consume Psi.rawSection s p = .ok (s', [d]) ∧ d.bytes.length = 9
         ∧ sectionLength d.bytes = 0 := by
   refine ⟨{ buf := List.replicate 8 0, remaining := some 1 },
-    [0x47, 0x00, 0x00, 0x10] ++ List.replicate 184 0, ?_, by decide, ?_⟩
+    [0x47, 0x00, 0x00, 0x30, 182] ++ List.replicate 183 0, ?_, by decide +kernel, ?_⟩
   · intro n hn
     simp only [Option.some.injEq] at hn
     subst hn
     decide
-  · refine ⟨_, _, by decide +kernel, by decide +kernel, by decide +kernel⟩
+  · have hl : ([0x47, 0x00, 0x00, 0x30, 182] ++ List.replicate 183 0 : Bytes).length = 188 := by
+      decide +kernel
+    have hq : plOf ([0x47, 0x00, 0x00, 0x30, 182] ++ List.replicate 183 0) = some ⟨false, [0], 187⟩ := by
+      decide +kernel
+    rw [consume_eq_plOf _ _ _ hl, hq]
+    exact ⟨{ buf := List.replicate 9 0, remaining := none }, ⟨List.replicate 9 0, none⟩,
+      by rfl, by decide, by decide⟩
 
 /-- whole runs: from any state satisfying `PsiInvFull` (in particular the initial one), any
 sequence of 188-byte packets is processed without panic, the invariant holds afterwards, and each
@@ -287,7 +296,8 @@ theorem section_reassembled (kind : Kind) (S : Bytes) (hS : WellFormedSection ki
   by_cases hkS : m.k = S.length
   · simp only [hkS, if_true]
     rw [runCont_idle _ _ _ (Or.inl rfl)]
-    exact ⟨_, by simp, rfl, rfl⟩
+    simp only [List.append_nil]
+    refine ⟨_, rfl, ?_, ?_⟩ <;> rfl
   · simp only [hkS, if_false]
     rcases hcase with h | ⟨h1, h2, h3⟩
     · exact absurd h hkS
@@ -295,7 +305,8 @@ theorem section_reassembled (kind : Kind) (S : Bytes) (hS : WellFormedSection ki
         (preSpec (cfgOf kind) st m.pre).1.dedupIgnore (hdd _) S m.extra m.conts m.k h1 h3
       unfold Mux.rest
       rw [this]
-      exact ⟨_, by simp, rfl, rfl⟩
+      simp only [List.append_nil]
+      refine ⟨_, rfl, ?_, ?_⟩ <;> rfl
 
 /-- the same at the level of 188-byte packets: if the payload views (C12) of the packets `pkts`
 are the start payload followed by continuation payloads with the bytes of `m.rest`, the model's
@@ -325,15 +336,15 @@ theorem section_reassembled_packets (kind : Kind) (S : Bytes) (hS : WellFormedSe
     subst e1
     exact ⟨s2, dss, rfl, e2, h2, h3⟩
 
-/-! ### over-limit sections -/
+/-! ### rejected starts: over-limit sections, header straddling a packet boundary -/
 
-/-- A unit-start payload whose section header (any 3 or more bytes `D` after the `pointer_field`
-bytes, whatever the syntax bit) declares `section_length > 1021` delivers nothing from that start
-— only what `pre` completed of the previous section —, sets `ignore_rest`, and every following
-continuation payload, whatever its bytes, delivers nothing and leaves the state unchanged.
-Holds for every configuration incl. `Psi.table`. -/
-theorem overlimit_never_delivered (cfg : Cfg) (hc : CfgOk cfg) (st : St) (hst : PsiInv (kindOf cfg) st)
-    (pre D : Bytes) (hD : 3 ≤ D.length) (hover : sectionLength D > maxSectionLength)
+/-- Any unit-start payload whose new section (3 or more bytes `D` after the `pointer_field` bytes)
+is rejected by the processor's three checks (`startOk = false`: wrong syntax bit, fewer than the
+fixed header's bytes present, or `section_length > 1021`) delivers nothing from that start — only
+what `pre` completed of the previous section —, sets `ignore_rest`, and every following
+continuation payload, whatever its bytes, delivers nothing and leaves the state unchanged. -/
+theorem rejected_start_ignored (cfg : Cfg) (hc : CfgOk cfg) (st : St) (hst : PsiInv (kindOf cfg) st)
+    (pre D : Bytes) (hD : 3 ≤ D.length) (hrej : startOk cfg D = false)
     (hsz : 1 + pre.length + D.length ≤ 184)
     (off : Nat) (rest : List Pl) (hus : ∀ q ∈ rest, q.us = false)
     (hne : ∀ q ∈ rest, 1 ≤ q.bytes.length) :
@@ -345,15 +356,8 @@ theorem overlimit_never_delivered (cfg : Cfg) (hc : CfgOk cfg) (st : St) (hst : 
       ∧ runPl cfg st (⟨true, UInt8.ofNat pre.length :: (pre ++ D), off⟩ :: rest)
           = .ok (sfin, (preSpec cfg st pre).2) := by
   have hf := consumeSpec_first cfg st pre D off (by omega) hD
-  have hnok : startOk cfg D = false := by
-    apply Bool.eq_false_iff.2
-    intro h
-    have := ((startOk_iff cfg D).1 h).2.2
-    rw [sectionLength_eq] at hover
-    simp only [maxSectionLength] at hover
-    omega
   have hstart : ∀ s o, startSpec cfg s D o = ({ s with ignoreRest := true }, []) := by
-    intro s o; unfold startSpec; simp [hnok]
+    intro s o; unfold startSpec; simp [hrej]
   rw [hstart] at hf
   have h1 : consumePayload cfg st true (UInt8.ofNat pre.length :: (pre ++ D)) off
       = .ok ({ (preSpec cfg st pre).1 with ignoreRest := true }, (preSpec cfg st pre).2) := by
@@ -367,6 +371,32 @@ theorem overlimit_never_delivered (cfg : Cfg) (hc : CfgOk cfg) (st : St) (hst : 
   refine ⟨_, h1, rfl, h2, ?_⟩
   simp only [runPl, h1, R.ok_bind, h2]
   simp
+
+/-- A unit-start payload whose section header (any 3 or more bytes `D` after the `pointer_field`
+bytes, whatever the syntax bit and however many bytes are present) declares
+`section_length > 1021` delivers nothing from that start, sets `ignore_rest`, and every following
+continuation payload, whatever its bytes, delivers nothing, until the next unit start.
+Holds for every configuration incl. `Psi.table`. -/
+theorem overlimit_never_delivered (cfg : Cfg) (hc : CfgOk cfg) (st : St) (hst : PsiInv (kindOf cfg) st)
+    (pre D : Bytes) (hD : 3 ≤ D.length) (hover : sectionLength D > maxSectionLength)
+    (hsz : 1 + pre.length + D.length ≤ 184)
+    (off : Nat) (rest : List Pl) (hus : ∀ q ∈ rest, q.us = false)
+    (hne : ∀ q ∈ rest, 1 ≤ q.bytes.length) :
+    ∃ sfin,
+      consumePayload cfg st true (UInt8.ofNat pre.length :: (pre ++ D)) off
+        = .ok (sfin, (preSpec cfg st pre).2)
+      ∧ sfin.ignoreRest = true
+      ∧ runPl cfg sfin rest = .ok (sfin, [])
+      ∧ runPl cfg st (⟨true, UInt8.ofNat pre.length :: (pre ++ D), off⟩ :: rest)
+          = .ok (sfin, (preSpec cfg st pre).2) := by
+  have hnok : startOk cfg D = false := by
+    apply Bool.eq_false_iff.2
+    intro h
+    have := ((startOk_iff cfg D).1 h).2.2
+    rw [sectionLength_eq] at hover
+    simp only [maxSectionLength] at hover
+    omega
+  exact rejected_start_ignored cfg hc st hst pre D hD hnok hsz off rest hus hne
 
 /-- the same for the well-formedness vocabulary of the spec: a would-be section whose header
 announces more than 1021 bytes is never delivered, for both kinds -/
@@ -383,6 +413,41 @@ theorem overlimit_never_delivered_raw (kind : Kind) (st : St) (hst : PsiInv kind
   obtain ⟨sfin, _, h2, _, h4⟩ := overlimit_never_delivered (cfgOf kind) (cfgOk_cfgOf kind) st
     (by rw [kindOf_cfgOf]; exact hst) pre D (by omega) hover hsz off rest hus hne
   exact ⟨sfin, h4, h2⟩
+
+/-- The hypothesis "the starting packet carries at least the fixed header" of
+`section_reassembled` is necessary (documented `TODO: implement buffering` in the source, not a new
+finding): a well-formed section-syntax section whose first share is 3..7 bytes at the end of the
+payload is NOT delivered — the start is rejected and the continuations are ignored. -/
+theorem header_straddling_dropped (S : Bytes) (_hS : WellFormedSection .syntax S)
+    (st : St) (hst : PsiInv .syntax st) (pre : Bytes) (k : Nat) (hk3 : 3 ≤ k) (hk8 : k < 8)
+    (hkS : k ≤ S.length) (hsz : 1 + pre.length + k ≤ 184)
+    (off : Nat) (rest : List Pl) (hus : ∀ q ∈ rest, q.us = false)
+    (hne : ∀ q ∈ rest, 1 ≤ q.bytes.length) :
+    ∃ sfin,
+      runPl Psi.rawSection st (⟨true, UInt8.ofNat pre.length :: (pre ++ S.take k), off⟩ :: rest)
+          = .ok (sfin, (preSpec Psi.rawSection st pre).2)
+      ∧ sfin.ignoreRest = true := by
+  have hl : (S.take k).length = k := by simp; omega
+  have hnok : startOk Psi.rawSection (S.take k) = false := by
+    apply Bool.eq_false_iff.2
+    intro h
+    have := ((startOk_iff Psi.rawSection (S.take k)).1 h).2.1
+    rw [hl] at this
+    have e : minHeader (kindOf Psi.rawSection) = 8 := rfl
+    omega
+  obtain ⟨sfin, _, h2, _, h4⟩ := rejected_start_ignored Psi.rawSection (cfgOk_cfgOf .syntax) st hst
+    pre (S.take k) (by omega) hnok (by omega) off rest hus hne
+  exact ⟨sfin, h4, h2⟩
+
+/-- consequence of `at_most_two_per_packet`: no delivery ever announces more than 1021 bytes -/
+theorem delivered_within_limit (cfg : Cfg) (hc : CfgOk cfg) (s : St) (hs : PsiInvFull (kindOf cfg) s)
+    (p : Bytes) (hp : p.length = 188) (s' : St) (ds : List Delivery)
+    (h : Psi.consume cfg s p = .ok (s', ds)) :
+    ∀ d ∈ ds, sectionLength d.bytes ≤ maxSectionLength := by
+  intro d hd
+  have := (at_most_two_per_packet cfg hc s hs p hp s' ds h).2 d hd
+  simp only [maxSectionLength]
+  omega
 
 /-! ### non-vacuity -/
 
